@@ -1,6 +1,7 @@
 import Orx.KSRun
 import Orx.IW.Outs
 import Orx.IW.NoLoss
+import Orx.Props.C07
 /-! # C04 Order: the shared iterator is one linearizable sequential cursor -/
 namespace Orx.Props.C04
 open Orx Orx.KS
@@ -79,5 +80,18 @@ theorem iter_quiescent_prefix (s : IW.Script) (hnp : IW.NoPanic s) (ps : Nat →
   refine ⟨hl.noLoss p, fun hd => ⟨?_, hl.delOk p hd⟩⟩
   obtain ⟨t, o, ho', hp⟩ := hd
   exact ho.belowY t o ho' p hp
+
+
+/-- **What the sequential-cursor order of the wrapper presupposes beyond SC interleavings.** The theorems above speak about positions; that the
+element delivered at a position is the one the wrapped iterator produced for it also needs the iterator's internal state to
+be handed from one puller to the next without a data race. That is the happens-before chain of C07, which holds for the
+memory orderings *extracted from the current source* (`Acquire` load of `yielded`, releasing `fetch_add` /
+`fetch_and_increment`), under every schedule and every choice of stale loads: -/
+theorem iter_handover_is_race_free (s : IW.Script) (ps : Nat → List IW.Req) (hok : ∀ t, ∀ r ∈ ps t, IW.ReqOk r)
+    (σ : List (Nat × IW.Stale)) (hW : (IW.runS s σ (IW.init ps)).R < W) (t : Nat)
+    (huse : ∃ r b acc, ((IW.hrunS C07.srcOrds s σ (IW.hinit ps)).core.th t).pc = .cs r b acc ∨
+                       ((IW.hrunS C07.srcOrds s σ (IW.hinit ps)).core.th t).pc = .ins r b acc) :
+    (IW.hrunS C07.srcOrds s σ (IW.hinit ps)).last.le ((IW.hrunS C07.srcOrds s σ (IW.hinit ps)).clk t) :=
+  C07.hb_chain_under_stale_reads s ps hok σ hW t huse
 
 end Orx.Props.C04
